@@ -143,6 +143,10 @@ package webrtc
 
 //@ field SCTPTransport.maxChannels props C18 writers (*SCTPTransport).updateMaxChannels
 //@ field SCTPTransport.dataChannelIDsUsed props C18 writers (*API).NewSCTPTransport
+// The entries of the in-use set: ids enter at the three bookkeeping sites the property names
+// (generated ids, explicit ids at creation, remote-created channels) and nowhere else; nothing
+// removes one.
+//@ field SCTPTransport.dataChannelIDsUsed[] props C18 writers (*SCTPTransport).generateAndSetDataChannelID, (*PeerConnection).CreateDataChannel, (*SCTPTransport).onDataChannel
 
 //@ func (*SCTPTransport).updateMaxChannels
 //@ props C18
@@ -169,6 +173,44 @@ package webrtc
 //@ loop 0 invariant forall k uint16 :: indom(r.dataChannelIDsUsed, k) == old(indom(r.dataChannelIDsUsed, k))
 //@ loop 0 invariant *idOut == old(*idOut) && r.dataChannelIDsUsed == old(r.dataChannelIDsUsed)
 //@ loop 0 decreases int(maxVal) + 2 - int(id)
+
+// Explicit ids and ids of remote-created channels enter the in-use set before the lock that
+// guards the generator is released, i.e. before any later generated id can be chosen.
+//@ func (*DataChannel).ID
+//@ props C18
+//@ requires d != nil
+//@ ensures result == d.id
+//@ modifies nothing
+
+//@ func (*API).newDataChannel
+//@ props C18
+//@ nosafety
+//@ requires params != nil
+//@ ensures err == nil ==> ret0 != nil && fresh(ret0) && ret0.id == params.ID
+//@ modifies nothing
+// Assumed of the standard library: reading the clock writes none of this package's memory.
+//@ func (time.Time).UnixNano
+//@ trusted
+//@ modifies nothing
+//@ func (*DataChannel).setReadyState
+//@ props C18
+//@ nosafety
+//@ requires d != nil
+//@ modifies d.readyState
+
+//@ func (*PeerConnection).CreateDataChannel #ids
+//@ props C18
+//@ nosafety
+//@ requires pcValid(pc) && pc.sctpTransport != nil && pc.sctpTransport.dataChannelIDsUsed != nil
+//@ atcall (*SCTPTransport).State assert options != nil && options.ID != nil ==> indom(pc.sctpTransport.dataChannelIDsUsed, *options.ID)
+
+//@ func (*SCTPTransport).onDataChannel #ids
+//@ props C18
+//@ nosafety
+//@ requires r != nil && dc != nil && r.dataChannelIDsUsed != nil && dc.id != nil
+//@ observe *dc.id
+//@ ensures indom(r.dataChannelIDsUsed, old(*dc.id))
+//@ ensures forall k uint16 :: old(indom(r.dataChannelIDsUsed, k)) ==> indom(r.dataChannelIDsUsed, k)
 
 // ---------------------------------------------------------------- C39
 //@ field PeerConnection.configuration props C39 writers (*PeerConnection).SetConfiguration, (*PeerConnection).initConfiguration, (*API).NewPeerConnection
